@@ -39,7 +39,7 @@ type res struct {
 func main() {
 	names := am.S{"A", "B", "C", "D"}
 	reps := ` + fmt.Sprint(reps) + `
-	r := res{Schema: "all 4-state schemas with at most one Require and one After per state", Group: "target-order", Kind: "determinism", Bound: reps, Exhausted: true}
+	r := res{Schema: "all 4-state schemas with at most one Require and one After per state (Add of all four), and T + four Auto states with T removing none/one of them and none/one mutually Removing pair (Add T, Remove T, Set T)", Group: "target-order", Kind: "determinism", Bound: reps, Exhausted: true}
 	// every state requires / comes after none or one of the others
 	choice := func(code int, self int) am.S {
 		if code == 0 {
@@ -79,6 +79,55 @@ func main() {
 						desc = append(desc, fmt.Sprintf("%s{Require:%v After:%v}", n, schema[n].Require, schema[n].After))
 					}
 					r.Violation = "schema " + strings.Join(desc, " ") + ": Add{A,B,C,D} gave [" + first + "] in run 1 and [" + out + "] in run " + fmt.Sprint(k+1)
+					break
+				}
+			}
+		}
+	}
+	// second family: Auto states (the auto mutation's called order feeds the resolver):
+	// T removes none or one of four Auto states X1..X4, none or one pair of them Remove each other;
+	// history Add T, Remove T, Set T
+	xs := am.S{"X1", "X2", "X3", "X4"}
+	for blocked := -1; blocked < 4 && r.Violation == ""; blocked++ {
+		for p := -1; p < 6 && r.Violation == ""; p++ {
+			pairs := [][2]int{{0, 1}, {0, 2}, {0, 3}, {1, 2}, {1, 3}, {2, 3}}
+			schema := am.Schema{"T": {}}
+			for _, x := range xs {
+				schema[x] = am.State{Auto: true}
+			}
+			if blocked >= 0 {
+				schema["T"] = am.State{Remove: am.S{xs[blocked]}}
+			}
+			if p >= 0 {
+				a, b := xs[pairs[p][0]], xs[pairs[p][1]]
+				sa, sb := schema[a], schema[b]
+				sa.Remove = am.S{b}
+				sb.Remove = am.S{a}
+				schema[a], schema[b] = sa, sb
+			}
+			first := ""
+			for k := 0; k < reps; k++ {
+				ctx, cancel := context.WithCancel(context.Background())
+				m := am.New(ctx, schema, &am.Opts{Id: "verif-c11"})
+				out := ""
+				for _, step := range []string{"add", "remove", "set"} {
+					var res am.Result
+					switch step {
+					case "add":
+						res = m.Add1("T", nil)
+					case "remove":
+						res = m.Remove1("T", nil)
+					case "set":
+						res = m.Set(am.S{"T"}, nil)
+					}
+					out += fmt.Sprint(res) + " " + strings.Join(m.ActiveStates(nil), ",") + " " + fmt.Sprint(m.Time(nil)) + "; "
+				}
+				cancel()
+				r.States++
+				if k == 0 {
+					first = out
+				} else if out != first {
+					r.Violation = fmt.Sprintf("schema T{Remove:%v} X1..X4 Auto, mutual Remove pair #%d: Add T, Remove T, Set T gave [%s] in run 1 and [%s] in run %d", schema["T"].Remove, p, first, out, k+1)
 					break
 				}
 			}
